@@ -6,9 +6,9 @@ on a tree without those fixes this check reports the violations with replays."""
 import itertools
 import vlib
 
-PROOFS = ["MgProof.C20.BitsLemmas", "MgProof.C20.HexLemmas", "MgProof.C20.StrLemmas",
-          "MgProof.C20.NumLemmas", "MgProof.C20.PathLemmas", "MgProof.C20.NormLemmas",
-          "MgProof.C20.Props"]
+PROOFS = ["MgProof.C20.BitsLemmas", "MgProof.C20.SwapLemmas", "MgProof.C20.HexLemmas",
+          "MgProof.C20.StrLemmas", "MgProof.C20.NumLemmas", "MgProof.C20.PathLemmas",
+          "MgProof.C20.NormLemmas", "MgProof.C20.Props"]
 GREP = ["MgModel/C20", "MgProof/C20", "MgModel/Common", "Drv/C20.lean"]
 REPO_SRCS = ["muggle/c/base/str.c", "muggle/c/os/path.c", "muggle/c/base/utils.c",
              "muggle/c/encoding/hex.c"]
@@ -41,8 +41,16 @@ def hx(s):
 # generators; each returns a list of cases (lists of op lines)
 # --------------------------------------------------------------------------
 
-def chunked(ops, n=40):
-    return [ops[i:i + n] for i in range(0, len(ops), n)]
+def chunked(ops, n=1):
+    """every op is independent of the others (only `buf` refers to the op before it), so a case
+    is one op (+ its `buf`): a failing case is already minimal and a crash costs one case"""
+    cases = []
+    for op in ops:
+        if op == "buf" and cases:
+            cases[-1].append(op)
+        else:
+            cases.append([op])
+    return cases
 
 
 def gen_bits(ctx):
@@ -446,8 +454,6 @@ def nontrivial(ops, out):
     return any(o not in ("0", "err", "-1", "bad-op", "none") for o in out)
 
 
-def signature_of(ops, res):
-    return None
 
 
 def main(ctx):
@@ -470,11 +476,16 @@ def main(ctx):
     except vlib.BuildError as e:
         ctx.broken.append("harness-build: " + str(e)[:500])
         return
-    first = True
+    # one correspondence run per operation kind, so that every kind of failure gets its own
+    # (already minimal) replay and a broken tree is reported quickly
+    by_kind = {}
     for name, gen in GROUPS:
-        cases = gen(ctx)
+        for case in gen(ctx):
+            by_kind.setdefault((name, case[0].split()[0]), []).append(case)
+    first = True
+    for (name, kind), cases in by_kind.items():
         vlib.seq_correspondence(ctx, hcmd, dcmd, cases, nontrivial=nontrivial, keep_prefix=0,
-                                label="tieB-" + name, max_reports=4,
+                                label="tieB-%s-%s" % (name, kind), max_reports=2,
                                 corpus_dir=None if first else "/nonexistent")
         first = False
     ctx.cov["exhaustive"] = True
